@@ -1433,6 +1433,11 @@ func hasOnPathSet(p *Program, comp []*ssa.Function) (bool, string) {
 			}
 		}
 		if insert == nil {
+			// the test and the insertion kept in a function that says whether
+			// the value was new; the removal (deferred) and the decision stay here
+			if ok := onPathViaHelper(f, in); ok {
+				guarded[f] = true
+			}
 			continue
 		}
 		// test before: a lookup in the same set guarding a return without recursion
@@ -3060,4 +3065,186 @@ func depthGuardHelper(h *ssa.Function) (passWhen bool, ok bool) {
 		return pw, true
 	}
 	return false, false
+}
+
+// onPathHelper: h tests whether a key is in a set held in a field, returns
+// false (as its last result) without inserting when it is, and otherwise
+// inserts it and returns true.  The set's field.
+func onPathHelper(h *ssa.Function) (string, bool) {
+	if h == nil || len(h.Blocks) == 0 {
+		return "", false
+	}
+	rs := h.Signature.Results()
+	if rs.Len() == 0 || !isBoolType(rs.At(rs.Len()-1).Type()) {
+		return "", false
+	}
+	var insert *ssa.MapUpdate
+	setField := ""
+	for _, b := range h.Blocks {
+		for _, ins := range b.Instrs {
+			if mu, ok := ins.(*ssa.MapUpdate); ok {
+				if ld, ok := mu.Map.(*ssa.UnOp); ok {
+					if k := fieldKey(ld.X); k != "" {
+						if c, ok := mu.Value.(*ssa.Const); ok && c.Value != nil && c.Value.Kind() == constant.Bool && constant.BoolVal(c.Value) {
+							if insert != nil {
+								return "", false
+							}
+							setField, insert = k, mu
+						}
+					}
+				}
+			}
+		}
+	}
+	if insert == nil {
+		return "", false
+	}
+	// the lookup of the same key in the same set, before the insert
+	tested := false
+	for _, b := range h.Blocks {
+		for _, ins := range b.Instrs {
+			lk, ok := ins.(*ssa.Lookup)
+			if !ok || !sameKeyValue(lk.Index, insert.Key) || !dominatesInstr(lk, insert) {
+				continue
+			}
+			if ld, ok := lk.X.(*ssa.UnOp); !ok || fieldKey(ld.X) != setField {
+				continue
+			}
+			for _, ref := range *lk.Referrers() {
+				if iff, ok := ref.(*ssa.If); ok {
+					found := iff.Block().Succs[0]
+					if found != insert.Block() && !found.Dominates(insert.Block()) {
+						tested = true
+					}
+				}
+			}
+		}
+	}
+	if !tested {
+		return "", false
+	}
+	// the last result is true exactly on the returns behind the insert
+	for _, b := range h.Blocks {
+		ret, ok := terminator(b).(*ssa.Return)
+		if !ok {
+			continue
+		}
+		c, ok := returnOperand(ret, rs.Len()-1).(*ssa.Const)
+		if !ok || c.Value == nil || c.Value.Kind() != constant.Bool {
+			return "", false
+		}
+		behind := insert.Block() == b || insert.Block().Dominates(b)
+		if constant.BoolVal(c.Value) != behind {
+			return "", false
+		}
+	}
+	return setField, true
+}
+
+// onPathViaHelper: f calls such a helper, returns without recursing when it
+// says the value is already on the path, defers the removal from the same set,
+// and recurses only behind the call.
+func onPathViaHelper(f *ssa.Function, in map[*ssa.Function]bool) bool {
+	for _, b := range f.Blocks {
+		for _, ins := range b.Instrs {
+			cl, ok := ins.(*ssa.Call)
+			if !ok {
+				continue
+			}
+			setField, ok := onPathHelper(cl.Call.StaticCallee())
+			if !ok {
+				continue
+			}
+			last := cl.Call.Signature().Results().Len() - 1
+			var flag ssa.Value = cl
+			if last > 0 {
+				flag = nil
+				for _, ref := range *cl.Referrers() {
+					if ex, ok := ref.(*ssa.Extract); ok && ex.Index == last {
+						flag = ex
+					}
+				}
+			}
+			if flag == nil {
+				continue
+			}
+			tested := false
+			for _, ref := range *flag.Referrers() {
+				iff, ok := ref.(*ssa.If)
+				if !ok {
+					continue
+				}
+				stop := iff.Block().Succs[1] // the flag is false: already on the path
+				if _, isRet := terminator(stop).(*ssa.Return); !isRet {
+					continue
+				}
+				rec := false
+				for _, i2 := range stop.Instrs {
+					if cc := callOf(i2); cc != nil && cc.StaticCallee() != nil && in[cc.StaticCallee()] {
+						rec = true
+					}
+				}
+				if !rec {
+					tested = true
+				}
+			}
+			removed := false
+			for _, b2 := range f.Blocks {
+				for _, i2 := range b2.Instrs {
+					if d, ok := i2.(*ssa.Defer); ok {
+						if bi, ok := d.Call.Value.(*ssa.Builtin); ok && bi.Name() == "delete" {
+							if ld, ok := d.Call.Args[0].(*ssa.UnOp); ok && fieldKey(ld.X) == setField {
+								removed = true
+							}
+						}
+					}
+				}
+			}
+			dominates := true
+			for _, b2 := range f.Blocks {
+				for _, i2 := range b2.Instrs {
+					if cc := callOf(i2); cc != nil && cc.StaticCallee() != nil && in[cc.StaticCallee()] && !dominatesInstr(cl, i2) {
+						dominates = false
+					}
+				}
+			}
+			if tested && removed && dominates {
+				return true
+			}
+		}
+	}
+	return false
+}
+
+// sameKeyValue: the same SSA value, or two loads of one local that is
+// written once.
+func sameKeyValue(x, y ssa.Value) bool {
+	if x == y {
+		return true
+	}
+	lx, ok1 := x.(*ssa.UnOp)
+	ly, ok2 := y.(*ssa.UnOp)
+	if !ok1 || !ok2 || lx.Op != token.MUL || ly.Op != token.MUL || lx.X != ly.X {
+		return false
+	}
+	al, ok := lx.X.(*ssa.Alloc)
+	if !ok {
+		return false
+	}
+	// only field-wise initialisation before the first load: no store after
+	for _, ref := range *al.Referrers() {
+		switch r := ref.(type) {
+		case *ssa.Store:
+			if !dominatesInstr(r, lx) || !dominatesInstr(r, ly) {
+				return false
+			}
+		case *ssa.FieldAddr:
+			for _, r2 := range *r.Referrers() {
+				if st, ok := r2.(*ssa.Store); ok && (!dominatesInstr(st, lx) || !dominatesInstr(st, ly)) {
+					return false
+				}
+			}
+		}
+	}
+	return true
 }
